@@ -91,6 +91,9 @@ let judge _name ins outs =
       let early_shut = e.[String.length e - 1] = 'h' in
       let e = if early_shut then String.sub e 0 (String.length e - 1) else e in
       let phtoks = if early_shut then "ch/t" :: phtoks else phtoks in
+      let probe, phtoks = match List.rev phtoks with
+        | ("Pq" | "Pr") :: r -> true, List.rev r
+        | _ -> false, phtoks in
       let early = int_of_string (String.sub e 1 (String.length e - 1)) in
       let banner = int_of_string (String.sub b 1 (String.length b - 1)) in
       let phases = List.map parse_phase phtoks in
@@ -108,6 +111,13 @@ let judge _name ins outs =
                 | x :: tl -> split (x :: acc) tl
                 | [] -> raise (Bad_out "empty") in
               let obtoks, rtok = split [] rest in
+              (* post-mortem probe: ... W? Q? before the R token *)
+              let obtoks, probe_res =
+                if not probe then obtoks, None
+                else match List.rev obtoks with
+                  | q :: w :: r when (q = "Q0" || q = "Q1") && (w = "W0" || w = "W1") ->
+                      List.rev r, Some (w = "W1", q = "Q1")
+                  | _ -> raise (Bad_out "probe-tokens-missing") in
               if List.mem "BLOCKED" obtoks then VPropfail ("delivery_blocked", String.concat "_" outs) else
               (* per phase: has the client / the target aborted by now? *)
               let abflags =
@@ -126,7 +136,18 @@ let judge _name ins outs =
                                Printf.sprintf "phase=%d got=%s" (int_of_nat k) (String.concat "_" outs))
                 | None ->
                     VPropfail ("release", "got=" ^ String.concat "_" outs)
-              end else begin
+              end else if (match probe_res with Some (w, q) -> not (probe_ok w q) | None -> false) then begin
+                match probe_res with
+                | Some (_, true) ->
+                    VPropfail ("tunnel_bytes_parsed_as_http",
+                               "a-request-written-into-the-dead-tunnel-reached-an-origin got=" ^ String.concat "_" outs)
+                | _ ->
+                    VPropfail ("client_conn_not_released",
+                               "writes-into-the-dead-tunnel-keep-succeeding got=" ^ String.concat "_" outs)
+              end else if (match probe_res with
+                           | Some (w, q) -> not (probe_agrees after_tunnel_here w q) | None -> false) then
+                VDisagree "after-tunnel-model-differs(Gen_Ret facts vs observation)"
+              else begin
                 let total = List.fold_left (fun a (c, t) -> a + c.bytes + t.bytes) (early + banner) phases in
                 if total > model_limit then VOk (phases <> [])
                 else begin
